@@ -124,6 +124,19 @@ func CurrentTask() int {
 //go:norace
 func YieldCount() uint64 { return yieldCount }
 
+// Debugging aid (determinism work): with EnableTrace(n) the first n yields are
+// recorded as task<<32|site in a preallocated array.
+var (
+	traceBuf []uint64
+	traceN   int
+)
+
+//go:norace
+func EnableTrace(n int) { traceBuf = make([]uint64, n); traceN = 0 }
+
+//go:norace
+func Trace() []uint64 { return traceBuf[:traceN] }
+
 //go:norace
 func mix(v uint64) {
 	logHash ^= v
@@ -402,6 +415,10 @@ func Yield(site uint32) {
 		// in which order, inside a loop over a map is not reproducible, so such
 		// loops run without scheduling points
 		return
+	}
+	if traceN < len(traceBuf) {
+		traceBuf[traceN] = uint64(t.ID)<<32 | uint64(site)
+		traceN++
 	}
 	class := (site >> 24) & 3
 	idx := site & 0xFFFF
